@@ -176,6 +176,10 @@ class BandwidthLimitedStream:
             except RequestExceededException as e:
                 self._time_utils.sleep(e.retry_time)
         else:
+            # The transfer failed while this read may still be waiting for its
+            # turn: give its scheduled wait back so it does not slow down the
+            # remaining transfers.
+            self._leaky_bucket.unschedule(self._request_token)
             raise self._transfer_coordinator.exception
 
     def signal_transferring(self):
@@ -275,6 +279,19 @@ class LeakyBucket:
                 )
             else:
                 return self._release_requested_amt(amt, time_now)
+
+    def unschedule(self, request_token):
+        """Forget a scheduled consumption request that will not be retried
+
+        :type request_token: RequestToken
+        :param request_token: The token of the request that got a
+            RequestExceededException and is not going to retry consume().
+        """
+        with self._lock:
+            if self._consumption_scheduler.is_scheduled(request_token):
+                self._consumption_scheduler.process_scheduled_consumption(
+                    request_token
+                )
 
     def _projected_to_exceed_max_rate(self, amt, time_now):
         projected_rate = self._rate_tracker.get_projected_rate(amt, time_now)
